@@ -142,17 +142,28 @@ def check_rec(O, S, leafmap, m, evs, labmode, orient, stubspec, seed=0, prebuilt
     return None
 
 
-def shared_pair(O, S, leafmap, m1, m2, orient, stubspec, seed=0):
+REUSED = [0]
+
+
+def shared_pair(O, S, leafmap, m1, m2, orient, stubspec, seed=0, drop_first=False):
     """two different reconciliations of ONE input object (same tree objects, as the outputs of a solver are): draw the
-    first, then check the drawing of the second"""
+    first, then check the drawing of the second.  drop_first: the first output object is released before the second is
+    created, as in `for rec in solutions: draw(rec)` - the second then usually occupies the address of the first"""
     rec1, onode, snode, _, _ = R.build_rec(O, S, leafmap, m1, None)
-    rec2 = ReconciliationOutput(rec1.input, {onode[v]: snode[x] for v, x in m2.items()})
+    inp = rec1.input
+    map2 = {onode[v]: snode[x] for v, x in m2.items()}
+    rec2 = None if drop_first else ReconciliationOutput(inp, map2)
     stubs.install(stubs.Stub(stubspec[0], stubspec[1] + 17 * seed))
     try:
         params = DrawParams(orientation=R.ORIENT[orient])
         tikz_mod.render(rec1, layout_mod.compute(rec1, params), params)
     except Exception as exc:
         return ("exception", f"first drawing: {type(exc).__name__}: {exc}\n{traceback.format_exc(limit=6)}")
+    if drop_first:
+        addr = id(rec1)
+        del rec1
+        rec2 = ReconciliationOutput(inp, map2)
+        REUSED[0] += int(id(rec2) == addr)
     evs2 = dtl.events_of(O, S, leafmap, m2)
     bad = check_rec(O, S, leafmap, m2, evs2, "none", orient, stubspec, seed, prebuilt=(rec2, onode, snode))
     if bad:
@@ -177,17 +188,22 @@ def run_shared_shard(shard, seed):
                 n_eval += 1
                 orient = "VH"[(i + j) % 2]
                 stubspec = STUBS[(i + 2 * j) % len(STUBS)]
-                bad = shared_pair(O, S, leafmap, m1, m2, orient, stubspec, seed)
-                case = R.rec_case(osh, ssh, leafmap, m2, first_mapping=sorted(m1.items()), orientation=orient,
-                                  stub=list(stubspec), seed=seed, shared=True)
-                if bad:
-                    vtotal += 1
-                    if len(viols) < 6 and not any(v["subcheck"] == bad[0] for v in viols):
-                        viols.append({"property": PROP, "subcheck": bad[0], "case": case, "detail": bad[1]})
-                if not samples:
-                    samples.append(case)
+                for drop in (False, True):
+                    if drop:
+                        n_eval += 1
+                    bad = shared_pair(O, S, leafmap, m1, m2, orient, stubspec, seed, drop_first=drop)
+                    case = R.rec_case(osh, ssh, leafmap, m2, first_mapping=sorted(m1.items()), orientation=orient,
+                                      stub=list(stubspec), seed=seed, shared=True, drop_first=drop)
+                    if bad:
+                        vtotal += 1
+                        if len(viols) < 6 and not any(v["subcheck"] == bad[0] for v in viols):
+                            viols.append({"property": PROP, "subcheck": bad[0], "case": case,
+                                          "detail": ("first output object released before the second was created: " if drop else "") + bad[1]})
+                    if not samples:
+                        samples.append(case)
+    reused, REUSED[0] = REUSED[0], 0
     return {"evaluations": n_eval, "nontrivial": n_eval, "samples": samples, "violations": viols, "violations_total": vtotal,
-            "counters": {"shared_tree_pairs": n_eval}}
+            "counters": {"shared_tree_pairs": n_eval, "second_output_at_address_of_released_first": reused}}
 
 
 def run_shard(shard, tier, seed):
@@ -235,7 +251,8 @@ def replay(v):
     O, S, leafmap, m = R.rec_from_case(c)
     if c.get("shared"):
         m1 = {int(k): int(x) for k, x in c["first_mapping"]}
-        bad = shared_pair(O, S, leafmap, m1, m, c["orientation"], tuple(c["stub"]), c.get("seed", 0))
+        bad = shared_pair(O, S, leafmap, m1, m, c["orientation"], tuple(c["stub"]), c.get("seed", 0),
+                          drop_first=c.get("drop_first", False))
         stubs.restore()
         return {"violated": bool(bad), "detail": (bad[0] + ": " + bad[1]) if bad else None}
     evs = dtl.events_of(O, S, leafmap, m)
